@@ -376,7 +376,15 @@ class Modifier(object):
     # cached_attribute, which causes annoyance while debugging.
     @cached_attribute
     def output_content(self):
-        return FileText(self.modifier(self.input_content), filename=self.filename)
+        try:
+            output = self.modifier(self.input_content)
+        except SystemExit as e:
+            # E.g. --replace-star-imports imported a module that calls
+            # sys.exit().  That must not end the run over all files (with
+            # status 0, even): make it a failure on this file.
+            raise Exception(
+                "SystemExit(%r) raised while rewriting" % (e.code,)) from e
+        return FileText(output, filename=self.filename)
 
     def _tempfile(self):
         from tempfile import NamedTemporaryFile
